@@ -247,7 +247,7 @@ def _decode_loop(fi, repo=None):
         holders = [g for g in _family(repo, fi) if g is not fi and any(isinstance(s, (ast.While, ast.For)) and 'co_code' in norm(s) and 'dis.opname' in norm(s) for s in ast.walk(g.node))]
         for g in holders:
             for st in fi.node.body:
-                if any(isinstance(c.func, ast.Name) and c.func.id == g.name for c in calls_in(st)):
+                if any((isinstance(c.func, ast.Name) and c.func.id == g.name) or (isinstance(c.func, ast.Attribute) and c.func.attr == g.name) for c in calls_in(st)):
                     return st
     raise AnalysisError('_patch_access_to_globals: instruction loop over co_code not found')
 
